@@ -79,9 +79,10 @@ ASSUMPTIONS = [
     "legitimately differ); store faults: all calls raise => idle store double (returns edits 0), only batch raises => "
     "fault-free store double; sidecar / timestamp fault => same run without fault (sidecar: snapshot body bytes equal too); "
     "loader fault / garbage boot entry => empty snapshot dir",
-    "when perf.enabled && perf.metrics.report_memory (metrics gate) the t2.jsonl keys 't2q.*' echo the quality CONFIG "
-    "(t2q.mmr.lambda is present whenever quality.enabled) and the fusion layer's own telemetry; they are masked on both "
-    "sides for fusion/MMR/items_for_fusion faults only; with the gate off nothing is masked",
+    "when perf.enabled && perf.metrics.report_memory (metrics gate) the t2.jsonl keys t2q.mmr.lambda, t2q.mmr.selected and "
+    "t2q.diversity_avg_pairwise are emitted iff t2.quality.enabled (config-gated presence), so they are masked on both sides "
+    "for fuse / items_for_fusion faults only (their baseline switches quality.enabled off); MMR faults and everything else "
+    "are compared unmasked; with the gate off nothing is masked",
     "health.jsonl is compared too but a difference there alone is only labelled (the property names t1/t2/t4/apply/turn); "
     "TurnResult.line (the returned result) must equal the baseline's",
     "valid foreign JSON objects / valid snapshots with wrong-typed fields: only 'returns and emits records' is demanded",
@@ -121,6 +122,7 @@ REFL_ON = {"t3": {"allow_reflection": True}}
 REFL_OFF = {"t3": {"allow_reflection": False}}
 Q_ON = {"t2": {"quality": {"enabled": True}}}
 QM_ON = {"t2": {"quality": {"enabled": True, "mmr": {"enabled": True}}}}
+SNAP_EVERY_TURN = {"t4": {"snapshot_every_n_turns": 1}}
 SHADOW_ON = {"perf": {"enabled": True, "metrics": {"report_memory": True}}, "t2": {"quality": {"enabled": False, "shadow": True}}}
 
 
@@ -178,7 +180,7 @@ _site("quality.fuse", "quality", ("mod", M_QOPS, "fuse"), on=Q_ON, off={"t2": {"
 _site("quality.items_for_fusion", "quality", ("mod", M_QUAL, "items_for_fusion"), on=QM_ON,
       off={"t2": {"quality": {"enabled": False, "mmr": {"enabled": False}}}}, tags=("q_on", "t2q"))
 _site("quality.maybe_apply_mmr", "quality", ("mod", M_QOPS, "maybe_apply_mmr"), on=QM_ON,
-      off={"t2": {"quality": {"mmr": {"enabled": False}}}}, tags=("q_on", "t2q"))
+      off={"t2": {"quality": {"mmr": {"enabled": False}}}}, tags=("q_on",))
 _site("shadow._emit_quality_trace", "shadow", ("mod", M_QUAL, "_emit_quality_trace"), on=SHADOW_ON,
       off={"t2": {"quality": {"shadow": False}}}, tags=("q_off",))
 _site("shadow._quality_cfg_snapshot", "shadow", ("mod", M_QUAL, "_quality_cfg_snapshot"), on=SHADOW_ON,
@@ -192,9 +194,9 @@ _site("cache.invalidate_namespace", "cache", ("cls", M_CACHE, "CacheManager", "i
 _site("store.all_calls", "store", ("state", "store_all"), needs=("deltas",), base="store_idle", tags=("store",))
 _site("store.batch_call", "store", ("state", "store_batch"), needs=("deltas",), tags=("store",))
 # --- snapshot sidecar
-_site("sidecar._write_sidecar_meta", "sidecar", ("mod", M_SNAP, "_write_sidecar_meta"), needs=("snapshot",))
-_site("sidecar._deterministic_created_at", "sidecar", ("mod", M_SNAP, "_deterministic_created_at"), needs=("snapshot",))
-_site("sidecar.atomic_write_text", "sidecar", ("mod", M_SNAP, "atomic_write_text"), when="meta", needs=("snapshot",))
+_site("sidecar._write_sidecar_meta", "sidecar", ("mod", M_SNAP, "_write_sidecar_meta"), on=SNAP_EVERY_TURN, needs=("snapshot",))
+_site("sidecar._deterministic_created_at", "sidecar", ("mod", M_SNAP, "_deterministic_created_at"), on=SNAP_EVERY_TURN, needs=("snapshot",))
+_site("sidecar.atomic_write_text", "sidecar", ("mod", M_SNAP, "atomic_write_text"), on=SNAP_EVERY_TURN, when="meta", needs=("snapshot",))
 # --- timestamp normalisation
 _site("ts._iso_from_ms", "ts", ("mod", M_CORE, "_iso_from_ms"), when="first")
 
@@ -628,11 +630,16 @@ def run_world(w: dict, over: dict, faults, *, boot_entries=None, booting=False, 
     return out
 
 
+# t2.jsonl keys that are emitted iff t2.quality.enabled (under the metrics gate), whatever the quality layers did: they
+# necessarily differ between "fusion faulted" (quality.enabled=true) and its baseline (quality.enabled=false)
+T2Q_CONFIG_GATED = ("t2q.mmr.lambda", "t2q.mmr.selected", "t2q.diversity_avg_pairwise")
+
+
 def _mask_t2q(data: bytes) -> bytes:
     out = []
     for ln in data.splitlines():
         o = json.loads(ln)
-        o = {k: v for k, v in o.items() if not k.startswith("t2q.")}
+        o = {k: v for k, v in o.items() if k not in T2Q_CONFIG_GATED}
         out.append(json.dumps(o, ensure_ascii=False))
     return "\n".join(out).encode()
 
@@ -645,6 +652,28 @@ def _mask_field(data: bytes, field: str) -> bytes:
             o[field] = "<masked>"
         out.append(json.dumps(o, ensure_ascii=False))
     return "\n".join(out).encode()
+
+
+F_MMR = "mmr-fault-drops-fusion-telemetry"
+F_ATTRS = "boot-gel-edge-attrs-not-dict"
+FUSION_TELEMETRY = {"t2q.fusion_mode", "t2q.alpha_semantic", "t2q.lex_hits"}
+
+
+def _only_fusion_telemetry_lost(fa: bytes, ba: bytes) -> bool:
+    """True iff the faulted t2.jsonl equals the baseline except that fusion's own fields are absent in some records."""
+    la, lb = fa.splitlines(), ba.splitlines()
+    if len(la) != len(lb):
+        return False
+    lost = False
+    for x, y in zip(la, lb):
+        ox, oy = json.loads(x), json.loads(y)
+        if ox == oy:
+            continue
+        keys = {k for k in set(ox) | set(oy) if ox.get(k, "<absent>") != oy.get(k, "<absent>")}
+        if not keys or not keys <= FUSION_TELEMETRY or any(k in ox for k in keys):
+            return False
+        lost = True
+    return lost
 
 
 def _first_diff(a: bytes, b: bytes) -> str:
@@ -774,6 +803,14 @@ def check_faults(case, rec=None, labels_extra=()):
             if mask_inv and k == "apply.jsonl":
                 fa, ba = _mask_field(fa, "cache_invalidations"), _mask_field(ba, "cache_invalidations")
             if fa != ba:
+                if k == "t2.jsonl" and "quality.maybe_apply_mmr" in fired_any and _only_fusion_telemetry_lost(fa, ba):
+                    # finding mmr-fault-drops-fusion-telemetry: exactly the fusion layer's own fields are missing, nothing else
+                    if rec is not None and rec.is_known(F_MMR):
+                        rec.case(nontrivial=False, labels=["known:" + F_MMR] + list(labels_extra))
+                        return
+                    raise Violation(f"t2.jsonl differs from the MMR-off baseline with faults {case['faults']}: the MMR failure also "
+                                    f"wiped the fusion layer's record fields although the fused ranking is kept: {_first_diff(fa, ba)}",
+                                    case, "diff:mmr-fault-drops-fusion-telemetry")
                 raise Violation(f"{k} differs from the off/idle baseline with faults {case['faults']} (reached {reached}): "
                                 f"{_first_diff(fa, ba)}", case, f"diff:{sig_site}:{k}")
         if all(s["group"] == "sidecar" for s in sites) and f.get("snaps") != b.get("snaps"):
@@ -929,6 +966,7 @@ def sub_sites(rec, seed, shard, nshards, worlds=4):
                     continue
                 _guarded(rec, {"world": w, "faults": [[name, exc_name] + ([mode] if mode == "after" else [])]}, check_faults, seen_sigs)
     if shard == 0:
+        probe_undeclared(rec, seed)
         for dbl in ("logs_append", "bundle_keys", "prompt_str"):
             for exc_name in EXC_NAMES:
                 try:
@@ -941,6 +979,25 @@ def sub_sites(rec, seed, shard, nshards, worlds=4):
     rec.note("exception_types", EXC_NAMES)
     rec.note("undeclared_left_out", "gel_observe/gel_tick (unguarded in run_turn; docs call them optional = config-gated only), "
              "core.emit_trace as a whole (declared guard is inside emit_trace), T1/T2 core, meta-filter, canonical appends, snapshot body write")
+
+
+UNDECLARED = {"gel_observe": (M_CORE, "gel_observe"), "gel_tick": (M_CORE, "gel_tick"), "core.emit_trace": (M_CORE, "emit_trace")}
+
+
+def probe_undeclared(rec, seed):
+    """Informational only (never a violation): what happens when a callable that run_turn invokes WITHOUT a guard, and that
+    neither code comments nor docs declare fail-soft, raises."""
+    w = gen_world(random.Random(seed), boot=False)
+    w["turns"] = w["turns"][:1]
+    w["profile"] = {"graph": True}
+    res = {}
+    for name, (modname, attr) in UNDECLARED.items():
+        site = {"name": "undeclared." + name, "group": "undeclared", "patch": ("mod", modname, attr), "on": {}, "off": {}, "when": None,
+                "needs": (), "tags": (), "base": None}
+        f = run_world(w, profile_cfg(w), [(site, "RuntimeError", "before")])
+        res[name] = "escapes run_turn" if (f["exc"] and f["exc"][0]) else ("swallowed" if f["raised"] else "not reached")
+        rec.case(nontrivial=False, labels=["undeclared_probe:" + name + ":" + res[name].split()[0]])
+    rec.note("undeclared_probe", res)
 
 
 def check_t3trace_direct(case, rec=None):
@@ -1099,7 +1156,9 @@ def boot_classes(rng: random.Random):
     ge = {"a→b": {"src": "a", "dst": "b", "weight": "heavy"}, "x": 5, "k2": None, "k3": {"src": None, "dst": 7, "weight": None},
           "k4": {"src": "e1", "dst": "e2", "weight": float("nan")}, "k5": {"src": "e2", "dst": "e3", "weight": float("inf")},
           "k6": {"src": "e1", "dst": "e3", "weight": 1e308, "attrs": "no"}, "k7": {"src": {"x": 1}, "dst": [1], "weight": True},
-          "e1→e2": {"id": 9, "src": "e2", "dst": "e1", "weight": -7, "rel": None}}
+          "e1→e2": {"id": 9, "src": "e2", "dst": "e1", "weight": -7, "rel": None},
+          "k8": {"src": "e1", "dst": "e4", "weight": 0.5, "attrs": None},
+          "k9": {"src": "e2", "dst": "e4", "weight": 0.5, "attrs": {"coact": "many", "last_seen_turn": []}, "updated_at": {"x": 1}}}
     keys = rng.sample(sorted(ge), rng.randint(2, len(ge)))
     mut("gel_edges_garbage", gel={"nodes": {"e1": 5, "e2": None}, "edges": {k: ge[k] for k in keys}, "meta": {"merges": 3, "last_update": {}}})
     mut("graph_instead_of_gel", gel="__del__", graph={"nodes": {}, "edges": {k: ge[k] for k in keys}, "meta": []})
@@ -1130,6 +1189,44 @@ def classify_content(data: bytes) -> str:
     return "object" if isinstance(v, dict) else "garbage"
 
 
+def _payload_of(data: bytes):
+    """The JSON payload the documented formats yield for a file (two-line header+payload, else single JSON), or None."""
+    try:
+        text = data.decode("utf-8")
+    except UnicodeDecodeError:
+        return None
+    parts = text.splitlines()
+    if len(parts) >= 2:
+        try:
+            h = json.loads(parts[0])
+            pl = json.loads("\n".join(parts[1:]))
+            if isinstance(h, dict):
+                return pl
+        except (ValueError, RecursionError):
+            pass
+    try:
+        return json.loads(text)
+    except (ValueError, RecursionError):
+        return None
+
+
+def entries_have_nondict_edge_attrs(entries) -> bool:
+    for e in entries:
+        if e["kind"] != "file":
+            continue
+        pl = _payload_of(entry_bytes(e))
+        if not isinstance(pl, dict):
+            continue
+        for sect in ("gel", "graph"):
+            g = pl.get(sect)
+            edges = g.get("edges") if isinstance(g, dict) else None
+            vals = list(edges.values()) if isinstance(edges, dict) else (edges if isinstance(edges, list) else [])
+            for ed in vals:
+                if isinstance(ed, dict) and "attrs" in ed and not isinstance(ed["attrs"], dict):
+                    return True
+    return False
+
+
 def check_bootfile(case, rec=None, labels_extra=()):
     """case: {"world": w, "cls": str, "strict": bool, "entries": [...]}"""
     w = case["world"]
@@ -1148,6 +1245,14 @@ def check_bootfile(case, rec=None, labels_extra=()):
             if rec is not None:
                 rec.case(nontrivial=False, labels=["baseline_raises"])
             return
+        if "has no attribute 'get'" in bad[0] and bad[0].startswith("AttributeError") and entries_have_nondict_edge_attrs(entries):
+            # finding boot-gel-edge-attrs-not-dict: the loader imports a GEL edge whose attrs is not a mapping
+            if rec is not None and rec.is_known(F_ATTRS):
+                rec.case(nontrivial=False, labels=["known:" + F_ATTRS, f"class:{cls}"] + list(labels_extra))
+                return
+            raise Violation(f"turn {len(f['exc'])} raised {bad[0]!r}: the boot loader imported a GEL edge whose 'attrs' is not a mapping "
+                            f"from {[e['name'] for e in entries]} (class {cls}) and GEL observe/tick crashed on it; with an empty "
+                            f"snapshot dir the same turns complete", case, "boot-raises:gel-edge-attrs-not-dict")
         raise Violation(f"turn {len(f['exc'])} raised {bad[0]!r} with boot entry class {cls} ({[e['name'] for e in entries]}) in the "
                         f"snapshot dir; with an empty dir the same turns complete", case, f"boot-raises:{cls}:{bad[0].split(':')[0]}")
     n = len(w["turns"])
@@ -1285,6 +1390,7 @@ def sub_boot_fuzz(rec, seed, shard, nshards, runs=300):
                 f.write(s)
         env = dict(os.environ)
         env["C20_FUZZ_OUT"] = work
+        env["C20_FUZZ_KNOWN"] = ",".join(sorted(rec.known))
         cmd = [sys.executable, target, f"-runs={int(runs)}", f"-seed={seed % (2 ** 31 - 1) + 1}", "-max_len=4096",
                f"-artifact_prefix={work}/", "-verbosity=0", corpus]
         p = subprocess.run(cmd, env=env, cwd=work, stdout=subprocess.PIPE, stderr=subprocess.STDOUT)
@@ -1300,6 +1406,8 @@ def sub_boot_fuzz(rec, seed, shard, nshards, runs=300):
             rec.label(lb, k)
         for d in stats.get("nontrivial", []):
             rec.case(nontrivial=True, dig=d, n=0)
+        for fid, k in (stats.get("excluded") or {}).items():
+            rec.excluded[fid] = rec.excluded.get(fid, 0) + int(k)
         rec.note("atheris_execs", execs)
         fp = os.path.join(work, "failure.json")
         if os.path.exists(fp):
@@ -1348,4 +1456,26 @@ SUBCHECKS = [
     Sub("boot_fuzz", sub_boot_fuzz, quick={"runs": 200}, thorough={"runs": 10000}, shards_quick=1, shards_thorough=2, replay=replay_boot),
 ]
 
-KNOWN_PROBES = {}
+def probe_attrs() -> bool:
+    """Minimal input of boot-gel-edge-attrs-not-dict: one file, one edge with attrs null, graph.enabled, one turn."""
+    w = gen_world(random.Random(7), boot=True)
+    w["turns"] = w["turns"][:1]
+    w["profile"] = {"graph": True}
+    body = {"gel": {"edges": {"e1→e2": {"src": "e1", "dst": "e2", "weight": 0.5, "attrs": None}}}}
+    f = run_world(w, profile_cfg(w), [], boot_entries=[{"name": "state_A.json", "kind": "file", "text": json.dumps(body)}], booting=True)
+    return bool(f["exc"] and f["exc"][0] and "has no attribute 'get'" in f["exc"][0])
+
+
+def probe_mmr() -> bool:
+    """Minimal input of mmr-fault-drops-fusion-telemetry: metrics gate on, quality+MMR on, maybe_apply_mmr raises, one turn."""
+    w = gen_world(random.Random(7), boot=False)
+    w["turns"] = w["turns"][:1]
+    w["profile"] = {"gate": True}
+    try:
+        check_faults({"world": w, "faults": [["quality.maybe_apply_mmr", "ValueError"]]}, None)
+    except Violation as v:
+        return v.sig == "diff:" + F_MMR
+    return False
+
+
+KNOWN_PROBES = {F_ATTRS: probe_attrs, F_MMR: probe_mmr}
